@@ -412,7 +412,56 @@ def case_lazyarray(ctx, case):
 CASES = {"lazystruct": case_lazystruct, "during": case_during, "lazyfield": case_lazyfield, "lazyarray": case_lazyarray}
 
 
+def case_scoped(ctx, case):
+    """lazy structures as elements of eager repeaters / members of eager structures, with members sized from the enclosing scope
+    (the repetition index, the keyword context, a field one level out): equal to the eager twin in values and final position"""
+    import construct as C
+    from ..veq import veq
+    form, off = case["form"], case["offset"]
+    vals = case["values"]
+    idx, par, out = C.this._index, C.this._params.n, C.this._.k
+
+    def twin(S):
+        if form == "array-index":
+            return C.Array(3, S("n" / C.Byte, "d" / C.Bytes(idx + 1), "t" / C.Byte))
+        if form == "until-index":
+            # (not GreedyRange: a lazy element never reads, so it never fails at the end of the data - see the C06 finding)
+            return C.Struct("xs" / C.RepeatUntil(lambda obj, lst, ctx: len(lst) == 3, S("n" / C.Const(b"\x07"), "d" / C.Bytes(idx + 1), "t" / C.Byte)), "e" / C.Byte)
+        if form == "params":
+            return C.Struct("h" / C.Byte, "z" / S("a" / C.Byte, "d" / C.Bytes(par), "p" / C.Prefixed(C.Byte, C.GreedyBytes), "t" / C.Byte), "e" / C.Byte)
+        if form == "outer-field":
+            return C.Struct("k" / C.Byte, "z" / S("a" / C.Byte, "d" / C.Bytes(out), "t" / C.Byte), "e" / C.Byte)
+        if form == "nested-index":
+            return C.Array(2, C.Struct("q" / C.Byte, "z" / S("d" / C.Bytes(idx + 1), "w" / S("e" / C.Bytes(idx + 2)), "t" / C.Byte)))
+    eager, lazy = twin(C.Struct), twin(C.LazyStruct)
+    kw = {"n": 2}
+    try:
+        data = eager.build(vals, **kw)
+    except Exception:
+        ctx.count("scoped_value_not_buildable")
+        return
+    buf = bytes([0xEE]) * off + data + b"\x55\x66"
+    ctx.ev()
+    s1, s2 = TracedStream(buf, pos=off), TracedStream(buf, pos=off)
+    e = eager.parse_stream(s1, **kw)
+    try:
+        l = lazy.parse_stream(s2, **kw)
+        ln = norm(l)
+    except Exception as x:
+        ctx.violation("lazystruct-in-scope-raises:%s:%s" % (form, type(x).__name__), "eager twin parses, the lazy one raised %s: %s" % (type(x).__name__, str(x)[:120]), case)
+        return
+    if ln != norm(e):
+        ctx.violation("lazystruct-in-scope-value:" + form, "lazy %r, eager %r" % (l, e), case)
+    elif s2.pos != s1.pos:
+        ctx.violation("lazystruct-in-scope-position:" + form, "stream at %d after lazy parse, %d after eager" % (s2.pos, s1.pos), case)
+    else:
+        ctx.nontrivial("scoped", form, off)
+        ctx.count("scoped_cases")
+
+
 def run_case(ctx, case):
+    if case["kind"] == "scoped":
+        return case_scoped(ctx, case)
     CASES[case["kind"]](ctx, case)
 
 
@@ -474,8 +523,24 @@ def histories(ctx, rng, ms, nrand):
     return out
 
 
+def scoped_cases(rng):
+    rb = lambda n: bytes(rng.randrange(256) for _ in range(n))
+    B = lambda: rng.randrange(256)
+    return [
+        ("array-index", [{"n": B(), "d": rb(i + 1), "t": B()} for i in range(3)]),
+        ("until-index", {"xs": [{"n": None, "d": rb(i + 1), "t": B()} for i in range(3)], "e": 9}),
+        ("params", {"h": B(), "z": {"a": B(), "d": rb(2), "p": rb(rng.randint(0, 3)), "t": B()}, "e": B()}),
+        ("outer-field", (lambda k: {"k": k, "z": {"a": B(), "d": rb(k), "t": B()}, "e": B()})(rng.randint(0, 4))),
+        ("nested-index", [{"q": B(), "z": {"d": rb(i + 1), "w": {"e": rb(i + 2)}, "t": B()}} for i in range(2)]),
+    ]
+
+
 def run(ctx):
     rng = ctx.rng
+    for j in range(ctx.pick(6, 60)):
+        for form, vals in scoped_cases(rng):
+            if ctx.mine(j):
+                run_case(ctx, {"kind": "scoped", "form": form, "values": tag(vals) if False else vals, "offset": rng.choice([0, 3])})
     nlists = ctx.pick(320, 4000) // ctx.nworkers
     maxn = ctx.pick(4, 6)
     for li in range(nlists):
